@@ -83,6 +83,8 @@ type Input struct {
 	G GenDoc `json:"g"`
 	// query (C13)
 	Q QueryDesc `json:"q"`
+	// the step runs in a branch that is thrown away afterwards (failed multi-message tx, simulation)
+	Disc bool `json:"disc"`
 }
 
 // IdEnt is one counterparty spelling: the string, its characters and the domain it denotes
